@@ -10,7 +10,8 @@ Open Scope Z_scope.
 
 (* apply_to_file: every handler seeks where the model says *)
 Lemma ap_interp_correct c pos0 o :
-  ap_interp expected_seek_sites (lenZ c) pos0 o true [expected_apply_try]
+  ap_interp expected_seek_sites (lenZ c) pos0 o true
+            (fun n d => n || negb d) [expected_apply_try]
   = position_of c o.
 Proof.
   destruct o; cbn; rewrite ?Z.add_0_r; reflexivity.
@@ -19,7 +20,8 @@ Qed.
 (* destructive=False: success seeks back to where the file was, the give-up
    handlers seek as before *)
 Lemma ap_interp_correct_nd c pos0 o :
-  ap_interp expected_seek_sites (lenZ c) pos0 o false [expected_apply_try]
+  ap_interp expected_seek_sites (lenZ c) pos0 o false
+            (fun n d => n || negb d) [expected_apply_try]
   = position_of_nd c pos0 o.
 Proof.
   destruct o; cbn; rewrite ?Z.add_0_r; reflexivity.
